@@ -59,6 +59,14 @@ CLAIMED['C02'] = dict(
          'A counterexample is replayed natively as a scaling measurement (k mutations on n_small vs n_big elements).',
     note='Kernel level. Outside: allocator/Vec growth, the evaluator statement paths that hand the variable cell to these kernels (OpAssign drop-before-call), by-value builtins (append, ++, |.), dict/struct arms.',
     design='§7 C02', technique='symbolic execution of rustc MIR with an explicit Rc/strong-count heap model + SMT (z3)')
+CLAIMED['C03'] = dict(
+    text='Bounded symbolic model checking of the real MIR of ChainEvaluator::{new, give, run_top, run_top_popped, finish}, Precedence::tighter_than_when_before and add_trace on chains of '
+         '1..3 operators (all associativity assignments; length 4 sampled in the quick tier, all in thorough) where every operator precedence is an arbitrary f64 (NaN, +-inf, every real, ties) '
+         'and "f chains with g" is an arbitrary Boolean per (merged) operator pair; Func::run is an application recorder. The application tree and the application order equal the '
+         'leftmost-handle operator-precedence reduction (written independently, evaluated under each implementation path condition) for every assignment.',
+    note='Stubs: Func::run (recorder), Func::try_chain (arbitrary relation). Outside: longer chains, evaluation order of operand/operator expressions in Expr::Chain and its single-operator fast path, '
+         'LvalueChainEvaluator, Func::ChainSection, which builtins declare themselves chainable.',
+    design='§7 C03', technique='symbolic execution of rustc MIR + SMT (z3), reference semantics evaluated under path conditions')
 NOT_APPLICABLE = {
  'C13': 'sequence library vs executable specification: the deciding content is std collections glued by one-line closures over whole sequences; not encodable as a bounded solver query over noulith code (DESIGN §9); parts decided under C08/C09/C10/C11/C14',
  'C17': 'freeze: semantic equivalence of two recursive traversals over programs; a bounded solver query cannot carry it (DESIGN §9)',
